@@ -10,6 +10,7 @@ import (
 	"time"
 
 	"go.amzn.com/lambda/interop"
+	"go.amzn.com/lambda/verifhook"
 	"verifharness/internal/stack"
 )
 
@@ -86,10 +87,12 @@ func (w *world) procFor(actor string) *stack.Proc {
 	if actor == "rt" {
 		return w.s.Sup.Live("runtime")
 	}
-	if w.extKind[actor] == "int" {
-		return w.s.Sup.Live("runtime")
+	for _, e := range w.s.Cfg.ExtFiles {
+		if e == actor {
+			return w.s.Sup.Live(actor)
+		}
 	}
-	return w.s.Sup.Live(actor)
+	return w.s.Sup.Live("runtime") // internal extensions live inside the runtime process
 }
 
 func (w *world) idHeader(actor, mode string) map[string]string {
@@ -118,6 +121,13 @@ func (w *world) apply(ws []string) bool {
 			w.extra = []string{"h=" + hashOf(pl[:interop.MaxPayloadSize])}
 		}
 		s.Invoke(c, pl, fmt.Sprintf("Root=1-5e1b4151-%024d;Parent=53995c3f42cd8ad8;Sampled=1", c))
+	case "hook": // hook <point> <delay-ms>   (0 disarms)
+		ms, _ := strconv.Atoi(ws[2])
+		if ms == 0 {
+			verifhook.Disarm(ws[1])
+		} else {
+			verifhook.Arm(ws[1], time.Duration(ms)*time.Millisecond)
+		}
 	case "beh": // beh <base> <term=exit:N|ignore> [execfail]
 		b := stack.Behaviour{}
 		for _, a := range ws[2:] {
